@@ -623,6 +623,194 @@ pub async fn run_op2(ctx: &Ctx, op: AOp, info: &Rc<TaskInfo>, handle: Handle) {
             }
         }
 
+        // C04 at API level: proxies with known subscriptions, a burst of events emitted by the
+        // server after the subscriptions were acknowledged, two sync barriers, then every proxy must
+        // hold exactly the events it was subscribed to, once each and in emission order.
+        AKind::EventRound => {
+            let target = {
+                let bb = ctx.bb.borrow();
+                if bb.service_cmds.is_empty() {
+                    None
+                } else {
+                    Some(bb.service_cmds[op.a as usize % bb.service_cmds.len()].clone())
+                }
+            };
+            let Some((sid, cmd)) = target else { return };
+            // Three proxies: one subscribed to event e1, one to e1 and e2, one (if supported) to all
+            // or to nothing.
+            let e1 = op.b % 3;
+            let e2 = (op.b / 3) % 3;
+            let mut proxies = Vec::new();
+            for _ in 0..3 {
+                match blocked(info, "Handle::create_proxy", true, handle.create_proxy(sid)).await {
+                    Ok(p) => proxies.push(p),
+                    Err(e) => return ctx.check_err("create_proxy", &e),
+                }
+            }
+            let mut subs: Vec<Vec<u32>> = vec![vec![e1], vec![e1, e2], vec![]];
+            let mut all = [false, false, false];
+            let mut ok = true;
+            ok &= blocked(info, "Proxy::subscribe", true, proxies[0].subscribe(e1)).await.is_ok();
+            ok &= blocked(info, "Proxy::subscribe", true, proxies[1].subscribe(e1)).await.is_ok();
+            ok &= blocked(info, "Proxy::subscribe", true, proxies[1].subscribe(e2)).await.is_ok();
+            if op.c % 2 == 0 && proxies[2].can_subscribe_all() {
+                if blocked(info, "Proxy::subscribe_all", true, proxies[2].subscribe_all()).await.is_ok() {
+                    all[2] = true;
+                } else {
+                    ok = false;
+                }
+            }
+            if op.c % 3 == 0 {
+                // Unsubscribe one again before the burst.
+                ok &= blocked(info, "Proxy::unsubscribe", true, proxies[1].unsubscribe(e2)).await.is_ok();
+                if e2 != e1 {
+                    subs[1].retain(|e| *e != e2);
+                } else {
+                    subs[1].clear();
+                }
+            }
+            if !ok {
+                return; // the service went away meanwhile; nothing exact can be said
+            }
+            // `subscribe()` returns at once when another proxy of this client has the same
+            // subscription *in flight* (observation O4); the barrier makes sure the broker has seen
+            // every subscription request this client has sent so far.
+            if blocked(info, "Handle::sync_broker", true, handle.sync_broker()).await.is_err() {
+                return;
+            }
+            let burst: Vec<(u32, u64)> = (0..(2 + op.d % 5)).map(|i| ((op.b + i) % 3, ctx.unique())).collect();
+            let (tx, rx) = futures_channel::oneshot::channel();
+            if cmd.unbounded_send(SvcCmd::EmitSync(burst.clone(), tx)).is_err() {
+                return;
+            }
+            let emitted = matches!(blocked(info, "server emit+sync", false, rx).await, Ok(true));
+            let synced = blocked(info, "Handle::sync_broker", true, handle.sync_broker()).await.is_ok();
+            if !emitted || !synced {
+                ctx.probe("event-round-inconclusive");
+                return;
+            }
+            for (pi, p) in proxies.iter_mut().enumerate() {
+                let mut got = Vec::new();
+                let mut ended = false;
+                loop {
+                    match try_next(p).await {
+                        Some(Some(ev)) => {
+                            if let Ok(v) = ev.deserialize::<Vec<u64>>() {
+                                got.push((ev.id(), v.first().copied().unwrap_or(0)));
+                            }
+                        }
+                        Some(None) => {
+                            ended = true;
+                            break;
+                        }
+                        None => break,
+                    }
+                }
+                if ended {
+                    continue; // the service was destroyed: the stream legitimately ends early
+                }
+                let want: Vec<(u32, u64)> = burst
+                    .iter()
+                    .copied()
+                    .filter(|(e, _)| all[pi] || subs[pi].contains(e))
+                    .collect();
+                // Other tasks may make the same server emit concurrently; judge this round's ids.
+                let mine: std::collections::BTreeSet<u64> = burst.iter().map(|b| b.1).collect();
+                let got_mine: Vec<(u32, u64)> = got.into_iter().filter(|g| mine.contains(&g.1)).collect();
+                ctx.probe("event-round-checked");
+                if got_mine != want {
+                    ctx.log.borrow_mut().violate(
+                        "event.round-mismatch",
+                        &[crate::model::Prop::C04, crate::model::Prop::C06],
+                        format!(
+                            "client{}: proxy {pi} of {:?} (subscribed to {:?}, all={}) received {got_mine:?} of the burst {burst:?}, expected {want:?}",
+                            ctx.client, sid.cookie, subs[pi], all[pi]
+                        ),
+                    );
+                    return;
+                }
+            }
+        }
+
+        // C10 at API level: a listener with a known filter, started, then a matching and a
+        // non-matching object created by this very task; after a sync the listener must hold exactly
+        // the matching creation (and destruction).
+        AKind::ListenerRound => {
+            let mut l = match blocked(info, "Handle::create_bus_listener", true, handle.create_bus_listener()).await {
+                Ok(l) => l,
+                Err(e) => return ctx.check_err("create_bus_listener", &e),
+            };
+            // Private UUIDs, so that nobody else creates the same objects.
+            let mine = aldrin_core::ObjectUuid(uuid::Uuid::from_u128(0xb0b0_0000_0000_4000_8000_0000_0000_0000u128 | ctx.unique() as u128));
+            let other = aldrin_core::ObjectUuid(uuid::Uuid::from_u128(0xb0b1_0000_0000_4000_8000_0000_0000_0000u128 | ctx.unique() as u128));
+            let filt = match op.a % 3 {
+                0 => aldrin_core::BusListenerFilter::object(mine),
+                1 => aldrin_core::BusListenerFilter::specific_object_any_service(mine),
+                _ => aldrin_core::BusListenerFilter::object(mine),
+            };
+            if l.add_filter(filt).is_err() {
+                return;
+            }
+            if op.b % 2 == 0 {
+                // A second, non-matching filter and a removed one.
+                let _ = l.add_filter(aldrin_core::BusListenerFilter::object(aldrin_core::ObjectUuid(uuid::Uuid::from_u128(77))));
+                let _ = l.remove_filter(aldrin_core::BusListenerFilter::object(aldrin_core::ObjectUuid(uuid::Uuid::from_u128(77))));
+            }
+            let scope = if op.c % 2 == 0 { aldrin_core::BusListenerScope::All } else { aldrin_core::BusListenerScope::New };
+            if blocked(info, "BusListener::start", true, l.start(scope)).await.is_err() {
+                return;
+            }
+            let o1 = blocked(info, "Handle::create_object", true, handle.create_object(mine)).await;
+            let o2 = blocked(info, "Handle::create_object", true, handle.create_object(other)).await;
+            let (Ok(o1), Ok(o2)) = (o1, o2) else { return };
+            let svc = if op.a % 3 == 1 {
+                blocked(info, "Object::create_service", true, o1.create_service(crate::wire_ops::svc_uuid(op.d), aldrin::low_level::ServiceInfo::new(0))).await.ok()
+            } else {
+                None
+            };
+            let id1 = o1.id();
+            let destroy = op.d % 2 == 0;
+            if destroy {
+                if let Some(s) = &svc {
+                    let _ = blocked(info, "Service::destroy", true, s.destroy()).await;
+                }
+                let _ = blocked(info, "Object::destroy", true, o1.destroy()).await;
+            }
+            if blocked(info, "Handle::sync_broker", true, handle.sync_broker()).await.is_err() {
+                return;
+            }
+            let mut got = Vec::new();
+            while let Some(Some(ev)) = try_next(&mut l).await {
+                got.push(ev);
+            }
+            let mut want = Vec::new();
+            let object_filter = op.a % 3 != 1;
+            if object_filter {
+                want.push(aldrin_core::BusEvent::ObjectCreated(id1));
+            }
+            if let Some(s) = &svc {
+                want.push(aldrin_core::BusEvent::ServiceCreated(s.id()));
+                if destroy {
+                    want.push(aldrin_core::BusEvent::ServiceDestroyed(s.id()));
+                }
+            }
+            if object_filter && destroy {
+                want.push(aldrin_core::BusEvent::ObjectDestroyed(id1));
+            }
+            ctx.probe("listener-round-checked");
+            if got != want {
+                ctx.log.borrow_mut().violate(
+                    "listener.round-mismatch",
+                    &[crate::model::Prop::C10, crate::model::Prop::C06],
+                    format!("client{}: listener with filter {filt:?} scope {scope:?} received {got:?}, expected {want:?}", ctx.client),
+                );
+            }
+            drop(svc);
+            drop(o2);
+            drop(o1);
+            drop(l);
+        }
+
         AKind::ScopeCreate => {
             let r = blocked(info, "Handle::create_lifetime_scope", true, handle.create_lifetime_scope()).await;
             match r {
